@@ -11,6 +11,9 @@ import traceback
 
 VERIF = os.path.dirname(os.path.dirname(os.path.abspath(__file__)))
 REPO = os.environ.get("VERIF_REPO", "/repo")
+# evidence and replay files normally live in /verif; tools that run a check against a patched copy of the repository
+# (tools/try_mutant.sh) send them elsewhere so that the committed evidence always comes from the unchanged tree
+OUT = os.environ.get("VERIF_OUT", VERIF)
 
 PROVED, VIOLATION, INCONCLUSIVE, ERROR, UNREPRODUCED = "proved", "violation", "inconclusive", "error", "unreproduced"
 
@@ -156,7 +159,7 @@ class Report:
         lines = []
         new_viol = []
         known_hit = {}
-        rdir = os.path.join(VERIF, "replays", pid)
+        rdir = os.path.join(OUT, "replays", pid)
         os.makedirs(rdir, exist_ok=True)
         for old in os.listdir(rdir):
             if old.endswith(".json"):
@@ -166,7 +169,7 @@ class Report:
             if kf is not None:
                 known_hit.setdefault(kf["id"], []).append(r)
                 continue
-            path = os.path.join(VERIF, "replays", pid, f"{pid}_{len(new_viol):03d}.json")
+            path = os.path.join(OUT, "replays", pid, f"{pid}_{len(new_viol):03d}.json")
             with open(path, "w") as f:
                 json.dump({"property": pid, "id": r.get("id"), "kind": r.get("kind"), "program": r.get("program"),
                            "cex": r.get("cex"), "detail": r.get("detail"), "signature": r.get("signature"),
@@ -229,8 +232,8 @@ class Report:
             "coverage": cov, "assumptions": self.assumptions, "wall_s": round(time.time() - self.t0, 2),
             "violations": len(new_viol),
         }
-        os.makedirs(os.path.join(VERIF, "evidence"), exist_ok=True)
-        with open(os.path.join(VERIF, "evidence", f"{pid}.json"), "w") as f:
+        os.makedirs(os.path.join(OUT, "evidence"), exist_ok=True)
+        with open(os.path.join(OUT, "evidence", f"{pid}.json"), "w") as f:
             json.dump(ev, f, indent=1, default=str)
         for ln in lines:
             print(ln)
